@@ -271,8 +271,10 @@ func argsCoq(cs Case, val func(int64) *big.Int) string {
 //   val:    Coq value of an input
 //   call:   returns the result as a Z (booleans 0/1); panics are recovered here
 //   oracle: returns "" or what is wrong, and whether the call is non-trivial
+//   show:   optional human readable form of an input / of a result, for failure reports
 func runCase(c *core.Ctx, cs Case, t tinfo, emit bool, val func(int64) *big.Int,
-	call func(tup []int64) *big.Int, oracle func(tup []int64, kind string, r *big.Int) (string, bool)) {
+	call func(tup []int64) *big.Int, oracle func(tup []int64, kind string, r *big.Int) (string, bool),
+	show ...func(*big.Int) string) {
 	c.Begin(cs)
 	c.Count("cases_" + cs.Fn)
 	var obs strings.Builder
@@ -290,10 +292,16 @@ func runCase(c *core.Ctx, cs Case, t tinfo, emit bool, val func(int64) *big.Int,
 			in := make([]string, len(tup))
 			for k, b := range tup {
 				in[k] = val(b).String()
+				if len(show) > 0 {
+					in[k] = show[0](val(b))
+				}
 			}
 			got := "panic " + kind
 			if kind == "" {
 				got = r.String()
+				if len(show) > 0 && cs.Fn != "Compare" && cs.Fn != "Less" {
+					got = show[0](r)
+				}
 			}
 			c.Fail(what, fmt.Sprintf("%s[%s](%s) = %s", cs.Fn, cs.Ty, strings.Join(in, ", "), got))
 			if len(failing) < 3 {
@@ -664,7 +672,13 @@ func execFloat[T typ.Float](c *core.Ctx, cs Case, t tinfo) {
 		return orderOracle(cs.Fn, A, kind, r, encFloat(1))
 	}
 	emit := cs.Fn != "Sum" && cs.Fn != "Product"
-	runCase(c, cs, t, emit, val, call, oracle)
+	runCase(c, cs, t, emit, val, call, oracle, func(code *big.Int) string {
+		m := code.Int64()
+		if m < 0 {
+			return fmt.Sprintf("%g", -math.Float64frombits(uint64(-m)))
+		}
+		return fmt.Sprintf("%g", math.Float64frombits(uint64(m)))
+	})
 }
 
 // ---------------------------------------------------------------- strings
@@ -703,7 +717,12 @@ func execString(c *core.Ctx, cs Case, t tinfo) {
 		}
 		return orderOracle(cs.Fn, A, kind, r, big.NewInt(1))
 	}
-	runCase(c, cs, t, true, val, call, oracle)
+	runCase(c, cs, t, true, val, call, oracle, func(code *big.Int) string {
+		if i := code.Int64(); i >= 0 && int(i) < len(strTable) {
+			return strconv.Quote(strTable[i])
+		}
+		return "?"
+	})
 }
 
 // ---------------------------------------------------------------- util.go
